@@ -810,3 +810,13 @@ def pinned(pc):
                 if c0 % k == 0:
                     out[atom] = I(-c0 // k)
     return out
+
+
+def bytes_of_same(v):
+    """v = be/le(byte_k(x)...) over all n bytes of one x in the right order -> (x, n), else None"""
+    if v[0] not in ('be', 'le') or not all(b[0] == 'byte' and b[2] == v[1][0][2] for b in v[1]):
+        return None
+    n = len(v[1])
+    order = [b[1] for b in v[1]]
+    want = list(range(n - 1, -1, -1)) if v[0] == 'be' else list(range(n))
+    return (v[1][0][2], n) if order == want else None
